@@ -49,9 +49,10 @@ VARIABLES
     callers,  \* [c |-> [st: "new" | "waiting" | "done", t, lk, ls, d, viol]]
     shared,   \* the in-flight map for the (single) query: [active, origin, start]
     m,        \* mechanism state of the active exchange
-    rr        \* round-robin cursor of the pool (survives lookups)
+    rr,       \* round-robin cursor of the pool (survives lookups)
+    open      \* servers to which a TCP connection is pooled
 
-vars == <<cfg, now, A, callers, shared, m, rr>>
+vars == <<cfg, now, A, callers, shared, m, rr, open>>
 
 NoDone == [t |-> 0, class |-> "", from |-> 0, err |-> ""]
 Idle   == [phase |-> "idle", queue |-> <<>>, flight |-> {}, busy |-> <<>>, backoff |-> 0,
@@ -62,7 +63,7 @@ Deadline == shared.start + cfg.T
 
 Init ==
     /\ cfg \in Configs
-    /\ now = 0 /\ A = <<>> /\ rr = 0
+    /\ now = 0 /\ A = <<>> /\ rr = 0 /\ open = {}
     /\ callers = [c \in 1..NCallers |-> [st |-> "new", t |-> 0, lk |-> 0, ls |-> 0, d |-> NoDone, viol |-> {}]]
     /\ shared = [active |-> FALSE, origin |-> 0, start |-> 0]
     /\ m = Idle
@@ -88,14 +89,14 @@ CallCreate(c, gap, order) ==
     /\ callers' = [callers EXCEPT ![c] = [@ EXCEPT !.st = "waiting", !.t = now', !.lk = c, !.ls = now']]
     /\ m' = [Idle EXCEPT !.phase = "round", !.queue = order, !.backoff = Backoff0]
     /\ rr' = IF cfg.strategy = "rr" /\ Hi(cfg.nconc, 1) < N THEN (rr + Hi(cfg.nconc, 1)) % N ELSE rr
-    /\ UNCHANGED <<cfg, A>>
+    /\ UNCHANGED <<cfg, A, open>>
 
 \* a caller that finds the identical query in flight joins it (no request of its own)
 CallJoin(c) ==
     /\ NextCaller(c) /\ shared.active /\ m.phase # "done"
     /\ callers' = [callers EXCEPT ![c] = [@ EXCEPT !.st = "waiting", !.t = now, !.lk = shared.origin,
                                                    !.ls = shared.start]]
-    /\ UNCHANGED <<cfg, now, A, shared, m, rr>>
+    /\ UNCHANGED <<cfg, now, A, shared, m, rr, open>>
 
 ---------------------------------------------------------------------------
 \* one exchange
@@ -118,9 +119,30 @@ TakeBatch(queue, k, acc) ==
 
 Batch == TakeBatch(m.queue, Hi(cfg.nconc, 1), <<>>)
 
-Attempt(s, i) ==
-    LET p == Transport(s) IN
-    [s |-> s, p |-> p, n |-> CountAt(A, s, p) + 1, o |-> shared.origin, q |-> 1, st |-> now, en |-> 0, res |-> ""]
+\* what one server's turn adds to the history: the request -- over TCP without a pooled connection
+\* first a connection attempt, which the request follows when (and if) it is established.  The
+\* exchange waits for the last record of the turn.
+WillConnect(s, hist) ==
+    Transport(s) = "tcp" /\ s \notin open
+    /\ ConnKind(cfg, BehAt(Srv(s).tc, CountAt(hist, s, "conn") + 1)) = "connected"
+Turn(s, hist) ==
+    LET p == Transport(s)
+        Req(st) == [s |-> s, p |-> p, n |-> CountAt(hist, s, p) + 1, o |-> shared.origin, q |-> 1,
+                    st |-> st, en |-> 0, res |-> ""]
+    IN IF p = "tcp" /\ s \notin open
+       THEN LET k == CountAt(hist, s, "conn") + 1
+                b == BehAt(Srv(s).tc, k)
+                c == [s |-> s, p |-> "conn", n |-> k, o |-> shared.origin, q |-> 1, st |-> now, en |-> 0, res |-> ""]
+            IN IF ConnKind(cfg, b) = "connected"
+               THEN <<[c EXCEPT !.en = now + ConnDur(cfg, b), !.res = "connected"], Req(now + ConnDur(cfg, b))>>
+               ELSE <<c>>
+       ELSE <<Req(now)>>
+
+RECURSIVE Launch(_, _, _)
+\* <<history, waited-for records>> after the turns of the servers srvs
+Launch(srvs, hist, fl) ==
+    IF srvs = <<>> THEN <<hist, fl>>
+    ELSE LET t == Turn(Head(srvs), hist) IN Launch(Tail(srvs), hist \o t, fl \cup {Len(hist) + Len(t)})
 
 Finish(class, from, err) ==
     m' = [m EXCEPT !.phase = "done", !.flight = {}, !.res = [t |-> now', class |-> class, from |-> from, err |-> err]]
@@ -129,14 +151,16 @@ Finish(class, from, err) ==
 DeadlineInRound ==
     /\ m.phase = "round" /\ now >= Deadline
     /\ now' = now /\ Finish("error", 0, "timeout")
-    /\ UNCHANGED <<cfg, A, callers, shared, rr>>
+    /\ UNCHANGED <<cfg, A, callers, shared, rr, open>>
 
 \* ask the next servers, at most nconc at a time
 RoundLaunch ==
     /\ m.phase = "round" /\ now < Deadline /\ Len(Batch[1]) > 0
-    /\ LET b == Batch[1] IN
-       /\ A' = A \o [i \in 1..Len(b) |-> Attempt(b[i], i)]
-       /\ m' = [m EXCEPT !.phase = "wait", !.queue = Batch[2], !.flight = (Len(A) + 1)..(Len(A) + Len(b))]
+    /\ LET b == Batch[1]
+           l == Launch(b, A, {})
+       IN /\ A' = l[1]
+          /\ m' = [m EXCEPT !.phase = "wait", !.queue = Batch[2], !.flight = l[2]]
+          /\ open' = open \cup {b[i] : i \in {j \in 1..Len(b) : WillConnect(b[j], A)}}
     /\ UNCHANGED <<cfg, now, callers, shared, rr>>
 
 \* nobody left to ask, but some servers said busy: pause, then ask those again
@@ -145,16 +169,16 @@ Backoff ==
     /\ m.busy # <<>> /\ m.backoff < BackoffCap
     /\ now' = Lo(now + m.backoff, Deadline)
     /\ m' = [m EXCEPT !.queue = m.busy, !.busy = <<>>, !.backoff = 2 * m.backoff]
-    /\ UNCHANGED <<cfg, A, callers, shared, rr>>
+    /\ UNCHANGED <<cfg, A, callers, shared, rr, open>>
 
 \* nobody left to ask at all
 GiveUp ==
     /\ m.phase = "round" /\ now < Deadline /\ Len(Batch[1]) = 0
     /\ ~(m.busy # <<>> /\ m.backoff < BackoffCap)
     /\ now' = now /\ Finish(m.err, 0, "exhausted")
-    /\ UNCHANGED <<cfg, A, callers, shared, rr>>
+    /\ UNCHANGED <<cfg, A, callers, shared, rr, open>>
 
-EndOf(i) == A[i].st + Dur(cfg, BehAt(Script(Srv(A[i].s), A[i].p), A[i].n))
+EndOf(i) == A[i].st + DurOf(cfg, A[i].p, BehAt(Script(Srv(A[i].s), A[i].p), A[i].n))
 Earliest(i) == i \in m.flight /\ \A j \in m.flight : EndOf(i) <= EndOf(j)
 
 \* the reply (or the per-attempt timeout) of the earliest outstanding request arrives
@@ -163,7 +187,7 @@ Reply(i) ==
     /\ (DeadlineRule = "required" => EndOf(i) <= Deadline)
     /\ now' = EndOf(i)
     /\ LET a    == A[i]
-           kind == EffKind(cfg, BehAt(Script(Srv(a.s), a.p), a.n))
+           kind == KindOf(cfg, a.p, BehAt(Script(Srv(a.s), a.p), a.n))
            left == m.flight \ {i}
            next == IF left = {} THEN "round" ELSE "wait"
        IN /\ A' = [A EXCEPT ![i] = [@ EXCEPT !.en = now', !.res = kind]]
@@ -177,6 +201,8 @@ Reply(i) ==
                                                              THEN <<a.s>> \o m.queue ELSE m.queue]
                [] kind = "busy" -> m' = [m EXCEPT !.flight = left, !.phase = next, !.busy = Append(m.busy, a.s)]
                [] OTHER -> m' = [m EXCEPT !.flight = left, !.phase = next]
+          \* a connection on which a request failed is not used again
+          /\ open' = IF a.p = "tcp" /\ kind \in {"io", "timeout", "busy"} THEN open \ {a.s} ELSE open
     /\ UNCHANGED <<cfg, callers, shared, rr>>
 
 \* required rule: the budget ends while requests are still outstanding -- they are abandoned
@@ -184,7 +210,7 @@ DeadlineInFlight ==
     /\ DeadlineRule = "required"
     /\ m.phase = "wait" /\ \E i \in m.flight : Earliest(i) /\ EndOf(i) > Deadline
     /\ now' = Deadline /\ Finish("error", 0, "timeout")
-    /\ UNCHANGED <<cfg, A, callers, shared, rr>>
+    /\ UNCHANGED <<cfg, A, callers, shared, rr, open>>
 
 \* every caller of the exchange receives its result; the in-flight entry is removed
 Deliver ==
@@ -197,6 +223,8 @@ Deliver ==
                      ELSE callers[c]]
     /\ shared' = [shared EXCEPT !.active = FALSE]
     /\ m' = Idle
+    \* servers that close idle connections have done so by the time the next call comes
+    /\ open' = {s \in open : Srv(s).idle = 0}
     /\ UNCHANGED <<cfg, now, A, rr>>
 
 Create == \E c \in 1..NCallers, g \in Gaps \cup {0} : \E o \in Orders : CallCreate(c, g, o)
